@@ -6,7 +6,7 @@ import ZChain.Model.StakePool
 
 `sp <minStake> <ratio hex16> <killed 0|1> <spReward> <bal:reward>*`   → `ok`   (pools in ascending id order)
 `dist <value>`                                                        → result
-`randn <value> <n> <i,j,…|->`  (indices chosen by the real `rand.Perm`) → result
+`randn <value> <n> <i,j,…|-> <seed> <old|new>`  (indices = what the real seeded `rand.Perm` selects; seed/fork are for the Go side) → result
 `dump`                                                                → `state <spReward> p <reward>*`
 result: `nothing` | `moved <spReward> p <pool reward>* u <upd reward> d <upd delegate reward>*` | `err <class>` -/
 namespace ZChain.Drv.C10
@@ -33,10 +33,7 @@ def showRes (sp : SP) : Except Err (SP × Option Upd) → SP × String
   | .ok (sp', some u) =>
     (sp', s!"moved {sp'.reward} p {natList (sp'.pools.map (·.reward))} u {u.reward} d {natList u.dr}")
 
-def step (sp : SP) (ws : List String) : SP × String :=
-  match F64Line.answer ws with
-  | some a => (sp, a)
-  | none =>
+def stepSP (sp : SP) (ws : List String) : SP × String :=
   match ws with
   | "sp" :: ms :: ratio :: k :: r :: pools =>
     match F64Line.u64? ms, F64.ofHex? ratio, F64Line.u64? r, allSome (pools.map parsePool) with
@@ -47,7 +44,7 @@ def step (sp : SP) (ws : List String) : SP × String :=
   | ["dist", v] => match F64Line.u64? v with
     | some v => showRes sp (distributeRewards sp v)
     | none => (sp, "bad-op")
-  | ["randn", v, n, idxs] => match F64Line.u64? v, n.toNat?, parseIdxs idxs with
+  | ["randn", v, n, idxs, _seed, _fork] => match F64Line.u64? v, n.toNat?, parseIdxs idxs with
     | some v, some n, some idxs =>
       -- the indices must be distinct positions of the ordered pool list (what `rand.Perm` yields)
       if idxs.all (· < sp.pools.length) ∧ idxs.eraseDups.length = idxs.length ∧
@@ -58,7 +55,23 @@ def step (sp : SP) (ws : List String) : SP × String :=
   | ["dump"] => (sp, s!"state {sp.reward} p {natList (sp.pools.map (·.reward))}")
   | _ => (sp, "bad-op")
 
-def run : IO Unit := ZChain.Drv.runLoop step { pools := [], reward := 0, minStake := 0, ratio := F64.zero, killed := false }
+def emptySP : SP := { pools := [], reward := 0, minStake := 0, ratio := F64.zero, killed := false }
+
+/-- state: `none` until the first well-formed `sp` line of the case. -/
+def step (st : Option SP) (ws : List String) : Option SP × String :=
+  match F64Line.answer ws with
+  | some a => (st, a)
+  | none =>
+    match st, ws with
+    | _, "sp" :: _ =>   -- (re)initialisation; a malformed `sp` line leaves NO state
+      let (sp', o) := stepSP emptySP ws
+      if o = "ok" then (some sp', o) else (none, o)
+    | none, _ => (none, "bad-op")
+    | some sp, _ =>
+      let (sp', o) := stepSP sp ws
+      (some sp', o)
+
+def run : IO Unit := ZChain.Drv.runLoop step none
 
 end ZChain.Drv.C10
 
